@@ -1,4 +1,5 @@
 import BddVerif.Lemmas.C02Built
+import BddVerif.Lemmas.C02History
 import BddVerif.Gen.OpTables
 /-!
 # C02 — equal functions have identical Bdds: canonical form through any history
@@ -78,66 +79,40 @@ theorem not_canonical {A : Arr} (h : Canonical A) : Canonical (bddNot A) := by
   rw [this]
   exact canon_canonical' _ _
 
-/-! ### Histories: the closure of canonical values under the modelled operations
+/-! ### Histories: the closure of canonical values under ALL modelled public operations
 
-`Built n a`: `a` is obtained from the constants by any finite sequence of the operations below (each
-constructor is one public operation of the library as modelled). `built_canonical` is the statement
-"whatever sequence of operations produced it, the Bdd is canonical", by induction over the history.
-(Operations whose canonical-form theorem is proved elsewhere — restrict, nested apply, … — are added
-as further constructors in their property files via the same one-step lemma shape.) -/
-inductive Built (n : Nat) : Arr → Prop
-  | mkFalse : Built n (mkFalse n)
-  | mkTrue : Built n (mkTrue n)
-  | canonOf (f : (Nat → Bool) → Bool) : Built n (canon n f)   -- any oracle-built operand
-  | not {a} : Built n a → Built n (bddNot a)
-  | binary {a b} (op : Op2) (c : Bool → Bool → Bool) (fl fr fo : Option Nat) :
-      Built n a → Built n b → Consistent op c →
-      (∀ x, fl = some x → x < n) → (∀ x, fr = some x → x < n) → (∀ x, fo = some x → x < n) →
-      Built n (applyWithFlip a b op fl fr fo)
-  | ternary {a b d} (op : Op3) (c : Bool → Bool → Bool → Bool) (fa fb fc fo : Option Nat) :
-      Built n a → Built n b → Built n d → Consistent3 op c →
-      (∀ x, fa = some x → x < n) → (∀ x, fb = some x → x < n) → (∀ x, fc = some x → x < n) →
-      Built n (ternaryApply a b d op fa fb fc fo)
+`B.C02H.Built n a` (Lemmas/C02History.lean, 51 constructors): `a` over `n` variables is obtained by
+any finite sequence of the library's public operations as modelled — constants, literals, valuation
+Bdds, clause/DNF/CNF/threshold constructors, `not`, binary and ternary operators with any consistent
+table and fused flips, size-limited operators, nested apply, `exists`/`for_all`/`var_exists`/
+`var_for_all`/`binary_op_with_exists`/`…_for_all`, `select`/`restrict`/`pick`/`pick_random`/`var_pick…`,
+`substitute`, `rename_variable(s)`/`set_num_vars`/`transfer_from` (whenever they do not refuse),
+rebuilds from `to_dnf`/`to_cnf`/`to_optimized_dnf`, deserialisation of the library's own text/bytes/
+node output, `eval_expression` and the export round trip. Each constructor's side conditions are the
+hypotheses of that operation's canonical-form theorem (C01, C03–C07, C10, C12, C15–C17). -/
 
-theorem numVars_canon' (n : Nat) (f : (Nat → Bool) → Bool) : numVars (canon n f) = n := by
-  rw [canon_restrict]; exact numVars_canon n _ (depBelow_restr n f)
-
-theorem built_canonical {n : Nat} {a : Arr} (h : Built n a) : Canonical a ∧ numVars a = n := by
-  induction h with
-  | mkFalse => exact ⟨canonical_mkFalse n, rfl⟩
-  | mkTrue => exact ⟨canonical_mkTrue n, rfl⟩
-  | canonOf f => exact ⟨canon_canonical' n f, numVars_canon' n f⟩
-  | not _ ih =>
-    obtain ⟨hc, hn⟩ := ih
-    refine ⟨not_canonical hc, ?_⟩
-    have := bddNot_canon (numVars _) (den _) hc.depBelow
-    rw [← hc] at this
-    rw [this, numVars_canon', hn]
-  | binary op c fl fr fo _ _ hcons hfl hfr hfo iha ihb =>
-    obtain ⟨ha, hna⟩ := iha; obtain ⟨hb, hnb⟩ := ihb
-    have hwa := Canonical.wfo ha; rw [hna] at hwa
-    have hwb := Canonical.wfo hb; rw [hnb] at hwb
-    refine ⟨applyWithFlip_is_canonical _ _ n op c fl fr fo hwa hwb hcons hfl hfr hfo, ?_⟩
-    rw [applyWithFlip_eq_canon _ _ n op c fl fr fo hwa hwb (numVars_of_wf hwa) hcons hfl hfr hfo]
-    exact numVars_canon' _ _
-  | ternary op c fa fb fc fo _ _ _ hcons hfa hfb hfc iha ihb ihd =>
-    obtain ⟨ha, hna⟩ := iha; obtain ⟨hb, hnb⟩ := ihb; obtain ⟨hd, hnd⟩ := ihd
-    have hwa := Canonical.wfo ha; rw [hna] at hwa
-    have hwb := Canonical.wfo hb; rw [hnb] at hwb
-    have hwd := Canonical.wfo hd; rw [hnd] at hwd
-    rw [ternaryApply_eq_canon _ _ _ n op c fa fb fc fo hwa hwb hwd hcons hfa hfb hfc]
-    exact ⟨canon_canonical' _ _, numVars_canon' _ _⟩
+/-- **Whatever sequence of operations produced it, the Bdd is canonical** (and carries the right
+    variable count) — induction over the history. -/
+theorem built_canonical {n : Nat} {a : Arr} (h : B.C02H.Built n a) : Canonical a ∧ numVars a = n :=
+  B.C02H.built_canonical h
 
 /-- **Any two results of any two histories with the same truth table are the same Bdd.** -/
-theorem built_unique {n : Nat} {a b : Arr} (ha : Built n a) (hb : Built n b)
-    (hf : ∀ v, den a v = den b v) : a = b := by
-  obtain ⟨ca, na⟩ := built_canonical ha
-  obtain ⟨cb, nb⟩ := built_canonical hb
-  exact canonical_unique ca cb (by rw [na, nb]) hf
+theorem built_unique {n : Nat} {a b : Arr} (ha : B.C02H.Built n a) (hb : B.C02H.Built n b)
+    (hf : ∀ v, den a v = den b v) : a = b :=
+  B.C02H.built_unique ha hb hf
+
+/-- … hence equal under `==`, with equal hash, text and bytes (any observable of the node vector) -/
+theorem built_same_observables {α : Type} (obs : Arr → α) {n : Nat} {a b : Arr}
+    (ha : B.C02H.Built n a) (hb : B.C02H.Built n b) (hf : ∀ v, den a v = den b v) : obs a = obs b :=
+  B.C02H.built_same_observables obs ha hb hf
+
+/-- every value of every history passes the executable test the driver applies to observed outputs -/
+theorem built_passes_check {n : Nat} {a : Arr} (h : B.C02H.Built n a) : Drive.isCanon a = true :=
+  B.C02H.built_isCanon h
 
 /-! ### Non-vacuity -/
-example : Built 3 (applyWithFlip (bddNot (canon 3 (fun v => v 0 && v 2))) (mkTrue 3) Gen.and_ none (some 1) none) :=
-  Built.binary Gen.and_ (fun a b => a && b) none (some 1) none (Built.not (Built.canonOf _)) Built.mkTrue
+example : B.C02H.Built 3 (applyWithFlip (bddNot (canon 3 (fun v => v 0 && v 2))) (mkTrue 3) Gen.and_ none (some 1) none) :=
+  B.C02H.Built.binary Gen.and_ (fun a b => a && b) none (some 1) none (B.C02H.Built.not (B.C02H.Built.canonOf 3 _)) (B.C02H.Built.mkTrue 3)
     (by constructor <;> decide) (by simp) (by simp) (by simp)
 
 /-- x0 ∧ x2 over three variables (the root skips level 1) is canonical … -/
